@@ -36,12 +36,17 @@ Inductive act :=
 | AAttPt (x y : Z)                                    (* attr_set att_x / att_y *)
 | AWithPt (x y : Z)                                   (* attr_set with_x / with_y *)
 | APutCopy (ref : Z)                                  (* put_copy: this item becomes a copy of item (this + ref) as it was when the rule fired *)
-| ASetUser (k : nat) (v : Z).                         (* iattr_set user attribute k *)
+| ASetUser (k : nat) (v : Z)                          (* iattr_set user attribute k *)
+| AAssoc (refs : list Z).                             (* assoc: the character association of this item becomes that of the referenced items (no effect on glyphs
+                                                         or positions, but the loader counts the item as changed) *)
 
 (* an optional rule constraint: the advance of window item [c_item] compared with a constant (cntxt_item + push_slot_attr) *)
 Inductive cmp := CLt | CGt | CEq.
-Record con := mkcon0 { c_item : nat; c_cmp : cmp; c_val : Z; c_user : option nat }.     (* c_user = Some k: the test is on user attribute k instead of the advance *)
-Definition mkcon (i : nat) (c : cmp) (v : Z) : con := mkcon0 i c v None.
+Record con := mkcon0 { c_item : nat; c_cmp : cmp; c_val : Z; c_user : option nat; c_gattr : option (list (N * Z)); c_const : option Z }.
+(* c_user = Some k: the test is on user attribute k instead of the advance; c_gattr = Some column: on a glyph attribute of the item's glyph, given as
+   the column (glyph, value) of that attribute in the font's Glat table (0 where absent); c_const = Some v: on a value that does not depend on the
+   stream (a feature value of the segment) *)
+Definition mkcon (i : nat) (c : cmp) (v : Z) : con := mkcon0 i c v None None None.
 Record rule := mkrule0 { r_pre : nat; r_pat : list (list N); r_acts : list (list act); r_con : option con; r_ret : Z }.
 (* r_ret: the value the action returns: the cursor moves that many slots from the end of the window (0 = stay there) *)
 Definition mkrule (pre : nat) (pat : list (list N)) (acts : list (list act)) (c : option con) : rule := mkrule0 pre pat acts c 0.
@@ -61,13 +66,19 @@ Section Pass.
     | c :: pr, s :: lr => mem (s_gid s) c && matches_from pr lr
     end.
 
+  Fixpoint lookup_col (g : N) (col : list (N * Z)) : Z := match col with [] => 0%Z | (g', v) :: r => if g =? g' then v else lookup_col g r end.
   (* rule r matches with the cursor at index i of l: its window starts r_pre r slots before the cursor *)
   Definition con_holds (c : option con) (window : list slot) : bool :=
     match c with
     | None => true
     | Some k => match nth_error window (c_item k) with
                 | None => true                                    (* an item outside the rule: the test is never reached *)
-                | Some s => let x := match c_user k with Some u => nth u (s_user s) 0%Z | None => s_adv s end in
+                | Some s => let x := match c_const k, c_gattr k, c_user k with
+                                     | Some v, _, _ => v
+                                     | None, Some col, _ => lookup_col (s_gid s) col
+                                     | None, None, Some u => nth u (s_user s) 0%Z
+                                     | None, None, None => s_adv s
+                                     end in
                             match c_cmp k with CLt => (x <? c_val k)%Z | CGt => (c_val k <? x)%Z | CEq => (x =? c_val k)%Z end
                 end
     end.
@@ -94,7 +105,7 @@ Section Pass.
      NEXT item, an artefact of the loader's bookkeeping) and referenced from its own or a later item: such an item is read as it was
      when the rule fired.  Every other item is read live: with the attribute changes its own actions have already made. *)
   Fixpoint has_put (acts : list act) : bool :=
-    match acts with [] => false | APutGlyph _ :: _ => true | APutSubs _ _ _ :: _ => true | APutCopy ref :: r => negb (ref =? 0)%Z || has_put r | _ :: r => has_put r end.
+    match acts with [] => false | APutGlyph _ :: _ => true | APutSubs _ _ _ :: _ => true | AAssoc _ :: _ => true | APutCopy ref :: r => negb (ref =? 0)%Z || has_put r | _ :: r => has_put r end.
   Fixpoint has_ins (acts : list act) : bool := match acts with [] => false | AInsert _ :: _ => true | _ :: r => has_ins r end.
   Fixpoint refs_of (acts : list act) : list Z :=
     match acts with [] => [] | APutSubs ref _ _ :: r => ref :: refs_of r | APutCopy ref :: r => ref :: refs_of r | _ :: r => refs_of r end.
@@ -179,7 +190,7 @@ Section Pass.
                       | Some s0 => if (ref =? 0)%Z then l else upd l k (fun s => copy_of s0 s)
                       | None => l
                       end
-                  | ADelete | AInsert _ => l                                                 (* the loader refuses them in positioning passes *)
+                  | ADelete | AInsert _ | AAssoc _ => l                                      (* the loader refuses insert / delete in positioning passes *)
                   end in
         apply_acts_pos r orig st j rest l'
     end.
